@@ -178,6 +178,27 @@ fn exec_step(gi: usize, t: usize, s: &Value, tc: &mut ThreadCtx) {
                     None => h.applied = false,
                 }
             }
+            "arm" => {
+                // reentrancy: hand the handle in `slot` to the outermost layer, which will drop it inside `on_close`
+                // of the span in slot `trig` (a layer that keeps spans alive on behalf of another span)
+                let trig = s["trig"].as_u64().unwrap_or(0) as usize % NSLOTS;
+                let tinfo = with_slot(trig, |sp, uid| (sp.id().map(|i| i.into_u64()).unwrap_or(0), uid));
+                let x = WORLD.lock().unwrap().as_mut().unwrap().slots[slot].take();
+                match (x, tinfo) {
+                    (Some(x), Some((tid, tuid))) if tid != 0 && tuid != x.uid && trig != slot => {
+                        h.uid = x.uid;
+                        h.handle = x.handle;
+                        h.uid2 = tuid;
+                        crate::reclayer::RELEASE_ON_CLOSE.lock().unwrap().push((tid, x.span));
+                    }
+                    (x, _) => {
+                        h.applied = false;
+                        if let Some(x) = x {
+                            WORLD.lock().unwrap().as_mut().unwrap().slots[slot] = Some(x);
+                        }
+                    }
+                }
+            }
             "enter" => {
                 let x = with_slot(slot, |sp, uid| sp.with_collector(|(id, d)| (uid, id.clone(), d.clone()))).flatten();
                 match x {
@@ -549,6 +570,14 @@ impl Engine for RegistryEngine {
                                 2 => json!({"t": t, "op": "trace_drop", "tr": *rng.pick(&own)}),
                                 _ => json!({"t": t, "op": "event", "site": rng.below(20), "parent": *rng.pick(&[-1i64, -1, -2, slot as i64])}),
                             }
+                        } else if !sync && mine.len() >= 2 && rng.chance(1, 2) {
+                            let trig = *rng.pick(&mine);
+                            if trig != slot && ident[trig] != ident[slot] {
+                                has[slot] = false;
+                                json!({"t": t, "op": "arm", "slot": slot, "trig": trig})
+                            } else {
+                                json!({"t": t, "op": "event", "site": rng.below(20), "parent": -1})
+                            }
                         } else {
                             json!({"t": t, "op": "event", "site": rng.below(20), "parent": -1})
                         }
@@ -786,6 +815,7 @@ fn oracle(prop: &str, sync: bool, hist: &[H], log: &[LRec]) {
     }
     let mut thread_stack: HashMap<usize, Vec<u64>> = HashMap::new();
     let mut handle_owner: HashMap<u64, u64> = HashMap::new(); // handle -> uid
+    let mut armed: HashMap<u64, Vec<u64>> = HashMap::new(); // uid of the releasing span -> handles dropped in its on_close
     let mut nested_ctx = false;
     let mut ooo = false;
     let mut closed_by_exit_or_cascade = false;
@@ -892,6 +922,7 @@ fn oracle(prop: &str, sync: bool, hist: &[H], log: &[LRec]) {
                     became.push(uid);
                 }
             }
+            "arm" => armed.entry(h.uid2).or_default().push(h.handle),
             "enter" => {
                 if let Some(s) = spans.get_mut(&h.uid) {
                     *s.entered.entry(t).or_insert(0) += 1;
@@ -992,9 +1023,21 @@ fn oracle(prop: &str, sync: bool, hist: &[H], log: &[LRec]) {
             _ => {}
         }
         // cascade: compute the closes this op must have caused (op mode) / must eventually cause
-        let mut queue = became.clone();
+        // a stack of (span, release): `release` = this entry is the release of one child's reference on the span,
+        // which happens when the child's slot is cleared - after every layer's on_close for the child, and so after
+        // whatever those callbacks closed re-entrantly
+        // (kind 0: see whether the span can close; 1: first release a child's reference on it; 2: first drop one of
+        // its handles - each takes effect when its turn comes, not when it is queued)
+        let mut queue: Vec<(u64, u8)> = became.iter().map(|u| (*u, 0)).collect();
         let mut caused: Vec<u64> = vec![];
-        while let Some(u) = queue.pop() {
+        while let Some((u, kind)) = queue.pop() {
+            if let Some(p) = spans.get_mut(&u) {
+                match kind {
+                    1 => p.children_open -= 1,
+                    2 => p.handles -= 1,
+                    _ => {}
+                }
+            }
             let (can, parent) = match spans.get(&u) {
                 Some(s) => (closable(s), s.parent),
                 None => (false, 0),
@@ -1006,10 +1049,16 @@ fn oracle(prop: &str, sync: bool, hist: &[H], log: &[LRec]) {
                     closed_by_exit_or_cascade = true;
                 }
                 if parent != 0 {
-                    if let Some(p) = spans.get_mut(&parent) {
-                        p.children_open -= 1;
+                    queue.push((parent, 1));
+                }
+                // handles a layer releases inside this span's on_close: their spans close (if they can) nested in
+                // it, before this span's parent is released
+                // (the queue is a stack: pushed in reverse so that the first handle dropped closes first, with its
+                // whole cascade, before the next one is dropped)
+                for hd in armed.remove(&u).unwrap_or_default().into_iter().rev() {
+                    if let Some(v) = handle_owner.remove(&hd) {
+                        queue.push((v, 2));
                     }
-                    queue.push(parent);
                 }
             }
         }
